@@ -112,6 +112,7 @@ struct inst {
 	int argc;
 	char **argv;
 	uint64_t rng;
+	uint64_t rng0;		/* the driver's seed for this instance */
 	/* select hand-over */
 	int wake_n;
 	int wake_fds[8];
@@ -312,9 +313,13 @@ int __wrap_rand(void)
 
 void __wrap_srand(unsigned s)
 {
-	if (cur < 0)
+	if (cur < 0) {
 		__real_srand(s);
-	/* instances: seeded by the driver, ignore */
+		return;
+	}
+	/* instances: the sequence is a function of the driver's seed for the instance AND of the program's argument, so
+	   that re-seeding with the same value restarts the same sequence (as it does with the real srand) */
+	insts[cur].rng = (insts[cur].rng0 ^ ((uint64_t) s * 0x9E3779B97F4A7C15ULL)) * 2862933555777941757ULL + 3037000493ULL;
 }
 
 unsigned int __wrap_sleep(unsigned int n)
@@ -912,6 +917,7 @@ int main(int argc, char **argv)
 				snprintf(in->name, sizeof(in->name), "%s", tok[1]);
 				in->kind = tok[2][0] == 'S' ? 0 : 1 + (tok[2][1] - '0');
 				in->rng = strtoull(tok[3], NULL, 10) * 2862933555777941757ULL + 3037000493ULL;
+				in->rng0 = in->rng;
 				in->argc = nt - 4;
 				in->argv = calloc(in->argc + 1, sizeof(char *));
 				for (i = 0; i < in->argc; i++) {
